@@ -47,6 +47,7 @@ func FromDir(d p9p.Dir) refwire.D {
 		Type: d.Type, Dev: d.Dev, Qid: FromQid(d.Qid), Mode: d.Mode,
 		Atime: uint32(d.AccessTime.Unix()), Mtime: uint32(d.ModTime.Unix()),
 		AtimeNs: d.AccessTime.Nanosecond(), MtimeNs: d.ModTime.Nanosecond(),
+		AtimeX: d.AccessTime.Unix() >> 32, MtimeX: d.ModTime.Unix() >> 32,
 		Length: d.Length, Name: nb(d.Name), UID: nb(d.UID), GID: nb(d.GID), MUID: nb(d.MUID),
 	}
 }
